@@ -87,7 +87,17 @@ def specs(tier, seed):
                     "sess": {"qtype": ["NULL", "PRIVATE"][i % 2], "lazy": 1, "fragsize": F},
                     "relay": {"dup_down": [{"dseq": 7, "delays_us": delays}]}, "pkts": pk, "dur_ms": 15000,
                     "label": "wrapdup%d" % i})
-    return out
+    # a slot with history: its earlier tenant vanished in the middle of a (crafted) downstream packet - first fragment
+    # acknowledged, second in flight; a minute later the run's own client is given the slot.  Nothing of the old packet
+    # may reach it.
+    for i in range(6 if tier == "quick" else 40):
+        F = [100, 150, 200][i % 3]
+        out.append({"seed": seed * 100000 + 98000 + i,
+                    "sess": {"qtype": common.QTYPES[i % 7], "lazy": i % 2, "prior": {"frag": F, "halfsent": True},
+                             "fragsize": [None, 100, 300][(i // 3) % 3]},
+                    "relay": {}, "pkts": [[300, "S", "C0", "rand", 200], [600, "C0", "S", "rand", 200], [2000, "S", "C0", "text", 700]],
+                    "dur_ms": 12000, "label": "stale%d" % i})
+    return common.fit_frag(out)
 
 
 def _run(spec):
